@@ -17,7 +17,7 @@ structure DState where
   /-- keys that can be named by a generic command (valid UTF-8) -/
   utf8 : NSet
 
-def DState.init : DState := { R := Routes.ofTable 1 [], fixed := false, st := [[]], utf8 := [] }
+def DState.init : DState := { R := Routes.ofTable 1 [], fixed := true, st := [[]], utf8 := [] }
 
 def showR1 : R1 → String
   | .ok => "ok"
